@@ -174,12 +174,48 @@ class Interp(object):
         if not isinstance(base, Lay):
             return UNK
         if isinstance(e.slice, ast.Slice):
-            return UNK
+            return self.slab_slice(base, e)
         idx = self.ev(e.slice)
         if not isinstance(idx, Sym):
             return UNK
         self.check_index(base.levels[0], idx, e)
         return Lay(base.levels[1:]) if len(base.levels) > 1 else 'pt'
+
+    def slab_slice(self, base, e):
+        """whole-slab slicing  L[S*i : S*(i+1)]  with S the product of the k fastest extents: the slab keeps those k positions and
+        the loop variable i addresses position k (its extent must be that position's extent)"""
+        sl = e.slice
+        if sl.lower is None or sl.upper is None or sl.step is not None or not base.flat():
+            return UNK
+        lo, hi = self.ev(sl.lower), self.ev(sl.upper)
+        if not isinstance(lo, Sym) or not isinstance(hi, Sym):
+            return UNK
+        lv = {name: (lab, ext) for name, lab, ext, _ in self.loops}
+        used = [v for v in lv if v in lo.p.atoms()]
+        if len(used) != 1:
+            return UNK
+        v = used[0]
+        S = lo.p.coeff_of(v)
+        if S is None or lo.p != S * Poly.atom(v) or hi.p != S * (Poly.atom(v) + 1):
+            self.report('LY1', e, False, 'slice bounds [%s : %s] are not a whole slab S*i .. S*(i+1)' % (lo.p, hi.p))
+            return UNK
+        pos = base.levels[0]
+        prod, k = Poly.const(1), 0
+        while k < len(pos) and prod != S:
+            prod = prod * pos[k][1]
+            k += 1
+        if prod != S or k >= len(pos):
+            self.report('LY1', e, False, 'slab size %s is not the product of the fastest extents of %s' % (S, base))
+            return UNK
+        lab, ext = lv[v]
+        ok = ext == pos[k][1]
+        self.report('LY1', e, ok, 'slab %s of %s, one per %s' % (S, base, pos[k][0]) if ok else
+                    'the slab loop runs over %s slabs but the list holds %s of them (direction %s): %s' % (
+                        ext, pos[k][1], pos[k][0], 'the last slabs are dropped' if True else ''))
+        have = self.varlabel.get(v, lab)
+        if pos[k][0] is not None:
+            self.varlabel[v] = pos[k][0]
+        return Lay([pos[:k]])
 
     def check_index(self, positions, idx, node):
         """LY1: match every loop variable of the index to a position by stride; check label and extent"""
